@@ -82,7 +82,7 @@ pub fn exec_oracle(kind: &str, fields: &[&str]) -> String {
         "S_C16E" => {
             let def = unescape(fields[0]);
             match Minimal::default().op(&def) {
-                Ok(_) => format!("oracle FAIL {def} was accepted although one element of the series is not a number"),
+                Ok(_) => format!("oracle FAIL {def} was accepted although one of its values is not a number"),
                 Err(_) => "oracle pass".to_string(),
             }
         }
@@ -1848,6 +1848,17 @@ fn oracle_c20(fields: &[&str]) -> String {
     if lines.len() != tuples.len() {
         return format!("oracle FAIL {} output lines for {} coordinate lines", lines.len(), tuples.len());
     }
+    // without -D the number of columns printed is the largest number of coordinate columns met in the input
+    // (comments do not count), 4 for anything else than 1, 2, 3
+    if optn("D").is_none() && !tuples.is_empty() {
+        let want = if (1..=3).contains(&maxcols) { maxcols } else { 4 };
+        for (k, line) in lines.iter().enumerate() {
+            let got = line.split_whitespace().count();
+            if got != want {
+                return format!("oracle FAIL line {k} has {got} columns, the input has at most {maxcols} coordinate columns (so {want} are due): {:?}", line);
+            }
+        }
+    }
     let (Some(dec), Some(dim)) = (optn("d"), optn("D")) else {
         return "oracle pass line-count-only".to_string();
     };
@@ -3453,6 +3464,11 @@ fn oracle_c06(fields: &[&str]) -> String {
                 let da = (inv[0] - p[2]).rem_euclid(std::f64::consts::TAU);
                 if !(da.min(std::f64::consts::TAU - da) * p[3].min(a) < 1e-3) {
                     return format!("oracle FAIL {}: direct with azimuth {} from ({}, {}) over {} m, inverse finds azimuth {}", fields[1], p[2], p[0], p[1], p[3], inv[0]);
+                }
+                // the azimuth at the destination: the direct problem's third result is the inverse problem's second
+                let dd = (dest[2] - inv[1]).rem_euclid(std::f64::consts::TAU);
+                if !(dd.min(std::f64::consts::TAU - dd) * p[3].min(a) < 1e-3) {
+                    return format!("oracle FAIL {}: azimuth at the destination is {} from the direct problem but {} from the inverse ({} m from ({}, {}) azimuth {})", fields[1], dest[2], inv[1], p[3], p[0], p[1], p[2]);
                 }
                 // symmetry in the end points
                 let back = e.geodesic_inv(&to, &from);
